@@ -53,7 +53,7 @@ impl Stack {
         requires old(self).wf(),
         ensures
             old(self)@.len() < EVM_STACK_LIMIT() ==> r is Ok && final(self)@ == old(self)@.push(data),                                     //@ob C07.stack.push.ok_pushes
-            old(self)@.len() >= EVM_STACK_LIMIT() ==> r is Err && r->Err_0 is StackDepthExceeded,                                          //@ob C07.stack.push.limit_is_error
+            old(self)@.len() >= EVM_STACK_LIMIT() ==> r is Err && r->Err_0 is StackDepthExceeded,                                          //@ob C07.stack.push.limit_is_error C08.stack.push.overflow_ends_path
             r is Err ==> final(self)@ == old(self)@,                                                                                         //@ob C07.stack.push.error_unchanged
             final(self).wf(),                                                                                                                //@ob C07.stack.push.wf
 //@end
@@ -82,7 +82,7 @@ impl Stack {
         ensures
             (frame as int) < old(self)@.len() < EVM_STACK_LIMIT() ==> r is Ok && final(self)@ == evm_dup(old(self)@, frame as int + 1),   //@ob C07.stack.duplicate.ok_copies_frame
             (frame as int) >= old(self)@.len() ==> r is Err && r->Err_0 is NoSuchStackFrame,                                                //@ob C07.stack.duplicate.missing_is_error
-            (frame as int) < old(self)@.len() && old(self)@.len() >= EVM_STACK_LIMIT() ==> r is Err && r->Err_0 is StackDepthExceeded,      //@ob C07.stack.duplicate.limit_is_error
+            (frame as int) < old(self)@.len() && old(self)@.len() >= EVM_STACK_LIMIT() ==> r is Err && r->Err_0 is StackDepthExceeded,      //@ob C07.stack.duplicate.limit_is_error C08.stack.duplicate.overflow_ends_path
             r is Err ==> final(self)@ == old(self)@,                                                                                         //@ob C07.stack.duplicate.error_unchanged
             final(self).wf(),                                                                                                                //@ob C07.stack.duplicate.wf
 //@end
